@@ -73,7 +73,23 @@ CASES = [
  ("C12", "pkg/chunkinfo/chunkpyramid.go", "func (ci *ChunkInfo) getUnRepeatChunk(", [("v", "cnt")]),
  ("C36", "pkg/keystore/mem/service.go", "func (s *Service) Key(", [("k", "entry")]),
  ("C25", "pkg/p2p/libp2p/internal/blocklist/blocklist.go", "func (b *Blocklist) Add(", [("key", "k")]),
+ # rules added in round 6
+ ("C24", "pkg/topology/kademlia/kademlia.go", "func (k *Kad) connect(", [("failedAttempts", "fails"), ("quickPrune", "qp")]),
+ ("C24", "pkg/topology/kademlia/kademlia.go", "func (k *Kad) Connection(", [("remove", "forget")]),
+ ("C38", "pkg/multicast/kademlia.go", "func (s *Service) onMulticast(", [("key", "msgKey"), ("setOK", "fresh")]),
+ ("C27", "pkg/routetab/table.go", "func (t *Table) SavePath(", [("routes", "list"), ("old", "prev")]),
+ ("C37", "pkg/p2p/libp2p/internal/handshake/handshake.go", "func (s *Service) Handshake(", [("observedUnderlayAddrInfo", "seenInfo"), ("observedUnderlay", "seen")]),
+ ("C31", "pkg/settlement/traffic/traffic.go", "func (s *Service) cashChequeReceiptUpdate(", [("cashInfo", "ci"), ("status", "st")]),
+ ("C33", "pkg/settlement/traffic/traffic.go", "func (s *Service) Pay(", [("balance", "due"), ("traffic", "tr")]),
+ ("C26", "pkg/blocker/blocker.go", "func (b *Blocker) Unflag(", [("addr", "peer")]),
+ ("C28", "pkg/routetab/route.go", "func (s *Service) respForward(", [("fwd", "own"), ("res", "pend")]),
+ ("C17", "pkg/chunkinfo/chunkinfodiscover.go", "func (ci *ChunkInfo) updateChunkInfo(", [("vb", "rec"), ("rc", "rootKey")]),
+ ("C13", "pkg/localstore/gc.go", "func (db *DB) collectGarbage(", [("currentCollectedCount", "freed"), ("recycledItems", "gone")]),
+ ("C11", "pkg/localstore/mode_put.go", "func (db *DB) setGC(", [("i", "acc"), ("gcItem", "g")]),
+ ("C05", "pkg/crypto/signer.go", "func Recover(", [("btcsig", "compact")]),
+ ("C06", "pkg/traversal/traversal.go", "func (s *service) GetChunkHashes(", [("bmtWriter", "bw"), ("ref", "want")]),
 ]
+
 def func_range(lines, prefix):
     for i, l in enumerate(lines):
         if l.startswith(prefix):
